@@ -21,11 +21,31 @@ _YAML = None
 
 
 def logger():
+    """A ConsolePrinter whose recoverable error()/warning() output is kept
+    in memory instead of flooding the check's stdout (library calls report
+    failures through return values and exceptions, which is what the checks
+    observe)."""
     global _LOG
     if _LOG is None:
         from yamlpath.wrappers import ConsolePrinter
-        _LOG = ConsolePrinter(SimpleNamespace(verbose=False, quiet=True,
-                                              debug=False))
+
+        class QuietPrinter(ConsolePrinter):
+            def __init__(self, args):
+                super().__init__(args)
+                self.errors = []
+
+            def error(self, message, exit_code=None):
+                self.errors.append(str(message))
+                del self.errors[:-20]
+                if exit_code is not None:
+                    import sys
+                    sys.exit(exit_code)
+
+            def warning(self, message):
+                pass
+
+        _LOG = QuietPrinter(SimpleNamespace(verbose=False, quiet=True,
+                                            debug=False))
     return _LOG
 
 
